@@ -96,9 +96,105 @@ fn mk(a: &str, b: &str, ic: bool) -> Val {
     ])
 }
 
+/// sizes that cross the thresholds a refactoring could introduce (u8 counters, 256-wide
+/// blocks, 1024/4096 buffers, u16 counters), capped at `max`
+const SCALE_SIZES: &[usize] = &[255, 256, 257, 300, 1023, 1025, 4097, 65537];
+fn scale_size(rng: &mut Rng, max: usize) -> usize {
+    let ok: Vec<usize> = SCALE_SIZES.iter().copied().filter(|s| *s <= max).collect();
+    *rng.pick(&ok)
+}
+
+/// SCALE stream: many words on both sides (the DP is quadratic in model and code: <= 400 x 400),
+/// a very long side against a short one, very long words, very long whitespace runs.
+fn gen_scale(rng: &mut Rng, tier: Tier) -> (String, String) {
+    let thorough = tier == Tier::Thorough;
+    let seq = |rng: &mut Rng, n: usize, pool: &[&str]| -> Vec<String> { (0..n).map(|_| rng.pick(pool).to_string()).collect() };
+    // both-sides-long cases are the expensive ones (model ~0.2 s at 300 x 300): about 1.3 in 10
+    let both = |rng: &mut Rng| if thorough && rng.chance(1, 4) { 400 } else { scale_size(rng, 300) };
+    match rng.below(10) {
+        0 => {
+            // both sides long; b a mutation of a (several rounds) over a tiny or the full alphabet
+            let n = both(rng);
+            let small = rng.chance(1, 2);
+            let a = seq(rng, n, if small { &WORDS[..3] } else { WORDS });
+            let mut b = a.clone();
+            let rounds = rng.range(1, 6);
+            for _ in 0..rounds {
+                b = mutate(rng, &b, small);
+            }
+            if rng.chance(1, 4) {
+                let k = rng.range(200, 260).min(b.len());
+                b.truncate(k);
+            }
+            let messy = rng.chance(1, 2);
+            (join(rng, &a, messy), join(rng, &b, messy))
+        }
+        1 => {
+            // long and independent: long x long, or long x a few dozen words
+            let n = both(rng);
+            let m = if rng.chance(1, 3) { both(rng) } else { *rng.pick(&[15usize, 16, 17, 31, 32, 33, 63, 64, 65]) };
+            let a = seq(rng, n, &WORDS[..8]);
+            let b = seq(rng, m, &WORDS[..8]);
+            (join(rng, &a, true), join(rng, &b, true))
+        }
+        2 | 3 | 4 => {
+            // one very long side against 0..3 words (table 4097 x 4)
+            let n = scale_size(rng, 4097);
+            let a = seq(rng, n, &WORDS[..8]);
+            let m = rng.below(4);
+            let b = seq(rng, m, &WORDS[..8]);
+            let (a, b) = (join(rng, &a, true), join(rng, &b, true));
+            if rng.chance(1, 2) { (a, b) } else { (b, a) }
+        }
+        5 | 6 | 7 => {
+            // very long words that differ (or not) in their last character only
+            let n = scale_size(rng, 65537);
+            let w: String = (0..n).map(|k| if k % 7 == 3 { 'X' } else { 'x' }).collect();
+            let w2 = match rng.below(3) {
+                0 => w.clone(),
+                1 => format!("{}y", &w[..n - 1]),
+                _ => flip_case(&w),
+            };
+            let (ka, kb) = (rng.below(3), rng.below(3));
+            let mut a = seq(rng, ka, &WORDS[..3]);
+            let mut b = seq(rng, kb, &WORDS[..3]);
+            let (pa, pb) = (rng.below(a.len() + 1), rng.below(b.len() + 1));
+            a.insert(pa, w);
+            b.insert(pb, w2);
+            (join(rng, &a, true), join(rng, &b, true))
+        }
+        _ => {
+            // very long whitespace runs (ASCII separators, and non-ASCII ones that do not separate)
+            let n = scale_size(rng, 65537);
+            let run: String = (0..n).map(|k| [' ', '\t', '\n', '\r', '\u{c}'][k % 5]).collect();
+            let nbn = scale_size(rng, 1025);
+            let nb: String = (0..nbn).map(|_| '\u{a0}').collect();
+            let kw = rng.range(1, 4);
+            let ws = seq(rng, kw, &WORDS[..3]);
+            let mut a = String::new();
+            if rng.chance(1, 2) {
+                a.push_str(&run);
+            }
+            for (k, w) in ws.iter().enumerate() {
+                a.push_str(w);
+                a.push_str(if k == 0 { &run } else { " " });
+            }
+            if rng.chance(1, 2) {
+                a.push_str(&nb);
+            }
+            let b = mutate(rng, &ws, true);
+            (a, join(rng, &b, true))
+        }
+    }
+}
+
 impl Prop for C18 {
-    fn gen(&mut self, rng: &mut Rng, tier: Tier, _i: usize, _n: usize) -> Val {
+    fn gen(&mut self, rng: &mut Rng, tier: Tier, i: usize, _n: usize) -> Val {
         let ic = rng.chance(1, 2);
+        if i == 2 || rng.chance(1, 100) {
+            let (a, b) = gen_scale(rng, tier);
+            return mk(&a, &b, ic);
+        }
         let stream = rng.below(100);
         let maxw = if tier == Tier::Thorough { 9 } else { 7 };
         let (a, b) = if stream < 12 {
@@ -236,6 +332,31 @@ impl Prop for C18 {
             || b.chars().any(|c| c.is_whitespace() && !c.is_ascii_whitespace())
         {
             tags.push("non-ascii-ws".into());
+        }
+        // scale tags (derived from the input, so that replayed and corpus cases carry them too)
+        let (la, lb) = (a.chars().count(), b.chars().count());
+        if na.max(nb) >= 255 || la.max(lb) >= 255 {
+            tags.push("scale".into());
+            if na.min(nb) >= 200 {
+                tags.push("scale-words2".into());
+            } else if na.max(nb) >= 255 {
+                tags.push("scale-words1".into());
+            }
+            let longest = |s: &str| s.split_ascii_whitespace().map(|w| w.chars().count()).max().unwrap_or(0);
+            if longest(&a).max(longest(&b)) >= 255 {
+                tags.push("scale-wordlen".into());
+            }
+            let wsrun = |s: &str| {
+                let (mut best, mut cur) = (0usize, 0usize);
+                for c in s.chars() {
+                    cur = if c.is_ascii_whitespace() { cur + 1 } else { 0 };
+                    best = best.max(cur);
+                }
+                best
+            };
+            if wsrun(&a).max(wsrun(&b)) >= 255 {
+                tags.push("scale-wsrun".into());
+            }
         }
         Some((out, tags))
     }
